@@ -44,15 +44,15 @@ type verifC07Coord struct{ node, segment string }
 
 // verifC07GWEntry is a gateway config entry reduced to what links it to services.
 type verifC07GWEntry struct {
-	kind     string          // structs.IngressGateway / structs.TerminatingGateway
-	gwKind   string          // service kind of the rows it produces
+	kind     string // structs.IngressGateway / structs.TerminatingGateway
+	gwKind   string // service kind of the rows it produces
 	name     string
 	explicit map[string]bool // "service|port"
 	wild     map[int]bool    // ports carrying the wildcard
 }
 
 type verifC07View struct {
-	nodes    map[string]*structs.Node        // peer|node
+	nodes    map[string]*structs.Node // peer|node
 	services []*structs.ServiceNode
 	svcByKey map[string]*structs.ServiceNode // peer|node|id
 	checks   []*structs.HealthCheck
